@@ -50,6 +50,7 @@ Definition go_write (data b : bytes) (cur : Z) : bytes :=
 Definition f_write (data : bytes) (h : hnd) (b : bytes) : option bytes * hnd * res :=
   if hclosed h then (None, h, RCount 0 (Some (E KClosed)))
   else if hro h then (None, h, RCount 0 (Some (EW KReadOnlyHandle)))
+  else if zlen b =? 0 then (None, h, RCount 0 None)      (* n == 0: no effect *)
   else if hat h <? 0 then (None, h, RPanic)
   else (Some (go_write data b (hat h)), set_at h (hat h + zlen b), RCount (zlen b) None).
 
@@ -99,7 +100,7 @@ Definition mf_step (s : fstate) (o : op) : fstate * res :=
       with_h i (fun h => let '(d, h', r) := f_writeat (fdata s) h b off in (upd_d (upd_h s i h') d, r))
   | HSeek i off wh => with_h i (fun h => let '(h', r) := f_seek (fdata s) h off wh in (upd_h s i h', r))
   | HTruncate i n => with_h i (fun h => let '(d, r) := f_truncate (fdata s) h n in (upd_d s d, r))
-  | HClose i => with_h i (fun h => (upd_h s i (set_closed h), ROk))
+  | HClose i => with_h i (fun h => if hclosed h then (s, RErr (E KClosed)) else (upd_h s i (set_closed h), ROk))
   | HStat i => with_h i (fun h => (s, RInfo (mkFi [] false (zlen (fdata s)) 0 0)))
   | HSync i => with_h i (fun h => (s, ROk))
   | _ => (s, RNoSlot)
